@@ -1174,6 +1174,19 @@ class NegG11(EG11):
     e: EG11
 
 
+@dataclass
+class WindowG13:
+    lo: Annotated[int, IntRange(50, 60)]  # same field NAME as the sibling the parents' refinements depend on
+
+
+@dataclass
+class RootG13:
+    lo: Annotated[int, IntRange(0, 3)]
+    win: WindowG13
+    wins: Annotated[list[WindowG13], ListSizeBetween(1, 2)]
+    hi: Annotated[int, Dependent("lo", lambda lo: IntRange(lo, lo + 2))]
+
+
 class EG12(ABC):
     pass
 
@@ -1231,6 +1244,7 @@ def extra_family():
         ("H3-evaluated-interval-list", [EH1, LitH1, NegH1, RootH3], RootH3, "IntervalRange tuple and sized list, annotations held as objects"),
         ("G11-float-int-bounds", [EG11, LeafG11, NegG11], EG11, "FloatRange(0, 9) with int-written bounds on a float field"),
         ("G12-tuple-rec-second", [EG12, LeafG12, PairG12], EG12, "recursion through the second component of a tuple[int, E] field"),
+        ("G13-dependent-scope", [WindowG13, RootG13], RootG13, "Dependent('lo') with concrete children (direct and in a sized list) that have a field of the same name in between"),
         ("G9-layers-unreachable", [EG9, MidG9, LeafG9, NodeG9, IslandG9], EG9, "two abstract layers, all abstract types recursive, one unreachable class"),
     ]
 
